@@ -4,7 +4,7 @@
    rest of the row is; hence rows that differ only by short/long spelling parse identically. *)
 From Coq Require Import List NArith ZArith Bool Lia.
 From RPFT Require Import Base.Sexp Base.PyStr Base.PyStrFacts Base.Result Base.ODict Gen.Tables Cell.Cell
-  Row.Ty Row.RowParse Row.FlowRow Row.ParseFold Row.Encodes Row.EncodesFacts.
+  Row.Ty Row.RowParse Row.RekeyFacts Row.FlowRow Row.ParseFold Row.Encodes Row.EncodesFacts.
 Import ListNotations.
 Local Open Scope N_scope.
 
@@ -203,8 +203,8 @@ Qed.
 Lemma rekey_congr (F F' : str -> res str) l l' : 
   Forall2 (fun a b : str * str => snd a = snd b /\ F (fst a) = F' (fst b)) l l' ->
   forall acc,
-  foldM (fun acc kv => do k <- F (fst kv); Ok (oset str_eqb acc k (snd kv))) l acc =
-  foldM (fun acc kv => do k <- F' (fst kv); Ok (oset str_eqb acc k (snd kv))) l' acc.
+  foldM (fun acc kv => do k <- F (fst kv); Ok (rekey_put acc k (snd kv))) l acc =
+  foldM (fun acc kv => do k <- F' (fst kv); Ok (rekey_put acc k (snd kv))) l' acc.
 Proof.
   induction 1 as [|a b l l' [Hv HF] _ IH]; intros acc; [reflexivity|].
   cbn [foldM]. rewrite HF, Hv. destruct (F' (fst b)); cbn [bind]; [apply IH|reflexivity].
